@@ -49,6 +49,9 @@ class Check(HCheck):
         sp.append(Space(Cfg("never"), [al.page(u, i % 3 == 0) for i, u in enumerate(core)], 6 if thorough else 5, name="order/core"))
         ll = al.long_lrus((75, 148, 149, 3, 74, 223) if thorough else (75, 148, 149, 74, 3))
         sp.append(Space(Cfg("never"), [al.page(u, i % 2 == 0) for i, u in enumerate(ll)], 6 if thorough else 5, name="order/long"))
+        # short stems with unusual byte values, stems that are byte-prefixes of one another
+        odd = [A + x for x in (b"\x00|", b"\xff\xfe|", b"p|", b"{|", b"}|", b"p:x\x00|", b"p:x|", b"p:xx|")]
+        sp.append(Space(Cfg("never"), [al.page(u, i % 2 == 1) for i, u in enumerate(odd if thorough else odd[:7])], 5 if thorough else 4, name="order/bytes"))
         # exhaustive small batch shapes (depth 1 from prepared states): every crawl batch with
         # <= 2 sources x <= 2 targets and every link batch of <= 2 (thorough 3) links over 4 pages
         P4 = [A, Ax, Axy, Ab]
